@@ -32,4 +32,46 @@ def runSubj (c : Case) : String :=
   if c.getD "subject" "publish" == "unicast" && unsafeVia then s!"res {c.id} expect=may-overlap grammar=ok"
   else s!"res {c.id} expect=serialized grammar=ok"
 
+/-- `kind=overlap2`: every multi-feeder operator with all its inputs driven from goroutines of their own
+    (go/harness/overlap.go). The chain of regenerated rows whose `emitMode` decides which subscriber the
+    concurrent feeders emit into: the operator's own row for the operators that merge their feeders themselves;
+    `MergeAll` followed by the operator for the ones that receive an already merged stream (a multi-source
+    fallback / continuation) and may hand their destination through. -/
+def chainOf : String → List String
+  | "TakeUntil" => ["TakeUntil"]
+  | "SkipUntil" => ["SkipUntil"]
+  | "SampleWhen" => ["SampleWhen"]
+  | "ThrottleWhen" => ["ThrottleWhen"]
+  | "BufferWhen" => ["BufferWhen"]
+  | "WindowWhen" => ["MergeAll"]            -- the windows are merged again by the harness
+  | "MergeWith" => ["MergeAll"]
+  | "MergeMap" => ["MergeAll"]
+  | "RaceWith" => ["RaceWith"]
+  | "Zip2" => ["ZipWith1"]
+  | "Zip3" => ["ZipWith2"]
+  | "CombineLatest2" => ["CombineLatestWith1"]
+  | "CombineLatest3" => ["CombineLatestWith2"]
+  | "CombineLatestAll" => ["CombineLatestAll"]
+  | "ZipAll" => ["ZipAll"]
+  | "Catch" => ["MergeAll", "Catch"]
+  | "OnErrorResumeNextWith" => ["MergeAll", "OnErrorResumeNextWith"]
+  | "Concat" => ["MergeAll", "ConcatAll"]
+  | "StartWith" => ["MergeAll", "StartWith"]
+  | "Defer" => ["MergeAll", "Defer"]
+  | "Timeout" => ["Timeout"]
+  | "BufferWithTimeOrCount" => ["BufferWithTimeOrCount"]
+  | "Delay" => ["Delay"]
+  | _ => []
+
+def run2 (c : Case) : String :=
+  match chainOf (c.getD "op" "?") with
+  | [] => s!"res {c.id} unsupported"
+  | names =>
+    match names.mapM rowOf with
+    | some rows =>
+      match emitMode rows with
+      | some m => if serializedMode m then s!"res {c.id} expect=serialized" else s!"res {c.id} expect=may-overlap"
+      | none => s!"res {c.id} unsupported"
+    | none => s!"res {c.id} unsupported"
+
 end Ro.Driver.Drivers.Overlap
